@@ -12,6 +12,7 @@ start skew, re-delivery) only ever produces such sequences, because the session 
 stages (Model/DkgSession.lean) do nothing else with a generator.
 Helper lemmas: Proofs/Dkg*.lean; reconstruction uses C09 (`Proofs/Share.lean`).
 -/
+import DosModel.Gen.VssFacts
 import DosModel.Proofs.DkgHonest
 import DosModel.Proofs.DkgLiveGlobal
 import Mathlib.Algebra.Order.Field.Rat
@@ -22,6 +23,189 @@ namespace Dos.Props.C04
 open Dos Dos.Vss Dos.Dkg
 
 variable {F G : Type} [Field F] [AddCommGroup G] [Module F G] [DecidableEq F] [DecidableEq G]
+
+/-- regenerated fact (`go/extract/vssfacts` → `Gen/VssFacts.lean`, on every check run): the ordered statement
+skeletons of the session layer as `Model/DkgSession.lean` transcribes it – `handlePeerMsg` (one duplicate filter per
+message type, each asserting ITS type on the buffered entries and comparing the keys `dupPk` / `dupDeal` /
+`dupResp` compare; hand-over when the count reaches `numOfResps` exactly), the dispatch of `Loop` (one
+`handlePeerMsg` per entry of a `Responses` message, each kind into its own buffer), the reply channel of capacity 1
+of `askMembers`, and the stages the member machine runs (`getAndProcessDeals`, `getAndProcessResponses`,
+`DistKeyShare`). A change to any of them must be re-modelled. -/
+theorem c04_code_shape :
+    Gen.VssFacts.handlePeerMsg = [
+      "0| func handlePeerMsg(sessionMap map[string][]interface{}, sessionReq map[string]request, p p2p.P2PInterface, sessionID string, content interface{})",
+      "1| switch pubkeyFromPeer := content.(type)",
+      "2| case *PublicKey:",
+      "3| pubkeys := sessionMap[sessionID]",
+      "3| for _, p := range pubkeys",
+      "4| pubkey, ok := p.(*PublicKey)",
+      "4| if ok",
+      "5| if pubkey.Index == pubkeyFromPeer.Index",
+      "6| return",
+      "2| default:",
+      "1| switch dealFromPeer := content.(type)",
+      "2| case *Deal:",
+      "3| deals := sessionMap[sessionID]",
+      "3| for _, dd := range deals",
+      "4| d, ok := dd.(*Deal)",
+      "4| if ok",
+      "5| if d.Index == dealFromPeer.Index",
+      "6| return",
+      "2| default:",
+      "1| switch respFromPeer := content.(type)",
+      "2| case *Response:",
+      "3| if respFromPeer.Response != nil",
+      "4| for _, rr := range sessionMap[sessionID]",
+      "5| r, ok := rr.(*Response)",
+      "5| if ok && r.Response != nil",
+      "6| if r.Index == respFromPeer.Index && r.Response.Index == respFromPeer.Response.Index",
+      "7| return",
+      "2| default:",
+      "1| sessionMap[sessionID] = append(sessionMap[sessionID], content)",
+      "1| if len(sessionMap[sessionID]) == sessionReq[sessionID].numOfResps",
+      "2| select",
+      "3| case <-sessionReq[sessionID].ctx.Done():",
+      "3| case sessionReq[sessionID].reply <- sessionMap[sessionID]:",
+      "2| close(sessionReq[sessionID].reply)",
+      "2| delete(sessionMap, sessionID)",
+      "2| delete(sessionReq, sessionID)"] ∧
+    Gen.VssFacts.loopPeerMsg = [
+      "0| func Loop()",
+      "1| switch content := msg.Msg.Message.(type)",
+      "2| case *PublicKey:",
+      "3| err := d.p.Reply(context.Background(), msg.Sender, msg.RequestNonce, content)",
+      "3| if err != nil",
+      "3| stampSender(content, msg.Sender)",
+      "3| handlePeerMsg(sessionPubKeys, sessionReqPubs, d.p, content.SessionId, content)",
+      "2| case *Deal:",
+      "3| err := d.p.Reply(context.Background(), msg.Sender, msg.RequestNonce, content)",
+      "3| if err != nil",
+      "3| handlePeerMsg(sessionDeals, sessionReqDeals, d.p, content.SessionId, content)",
+      "2| case *Responses:",
+      "3| err := d.p.Reply(context.Background(), msg.Sender, msg.RequestNonce, content)",
+      "3| if err != nil",
+      "3| resps := content.Response",
+      "3| for _, resp := range resps",
+      "4| handlePeerMsg(sessionResps, sessionReResps, d.p, content.SessionId, resp)"] ∧
+    Gen.VssFacts.askMembers = [
+      "0| func askMembers(ctx context.Context, logger log.Logger, bufToNode chan interface{}, numOfResp, reqTpe int, sessionID string) (out chan []interface{})",
+      "1| out = make(chan []interface{}, 1)",
+      "1| go func() {…}()",
+      "2| func()",
+      "3| req := request{ctx: ctx, reqType: reqTpe, sessionID: sessionID, numOfResps: numOfResp, reply: out}",
+      "3| select",
+      "4| case <-ctx.Done():",
+      "5| close(out)",
+      "4| case bufToNode <- req:",
+      "1| return"] ∧
+    Gen.VssFacts.getAndProcessDeals = [
+      "0| func getAndProcessDeals(ctx context.Context, logger log.Logger, dkgc chan *DistKeyGenerator, dealsc chan []interface{}, sessionID string) (dkgOut chan *DistKeyGenerator, out chan interface{}, errc chan error)",
+      "1| dkgOut = make(chan *DistKeyGenerator)",
+      "1| out = make(chan interface{})",
+      "1| errc = make(chan error)",
+      "1| go func() {…}()",
+      "2| func()",
+      "3| var dkg *DistKeyGenerator",
+      "3| var ok bool",
+      "3| defer close(dkgOut)",
+      "3| defer close(out)",
+      "3| defer close(errc)",
+      "3| select",
+      "4| case <-ctx.Done():",
+      "4| case dkg, ok = <-dkgc:",
+      "5| if !ok",
+      "6| return",
+      "3| if dkg == nil",
+      "4| return",
+      "3| select",
+      "4| case <-ctx.Done():",
+      "4| case deals, ok := <-dealsc:",
+      "5| if ok",
+      "6| var resps []*Response",
+      "6| for _, d := range deals",
+      "7| deal, ok := d.(*Deal)",
+      "7| if !ok",
+      "8| err := &DKGError{err: errors.Errorf(\"Casting Deal failed for GID %s : %w\", sessionID, ErrCasting)}",
+      "8| reportErr(ctx, errc, err)",
+      "8| return",
+      "7| resp, err := dkg.ProcessDeal(deal)",
+      "7| if err != nil",
+      "8| err = &DKGError{err: errors.Errorf(\"ProcessDeal failed for GID %s : %w\", sessionID, err)}",
+      "8| reportErr(ctx, errc, err)",
+      "8| continue",
+      "7| resp.SessionId = sessionID",
+      "7| if vss.StatusApproval != resp.Response.Status",
+      "8| err = &DKGError{err: errors.Errorf(\"ProcessDeal failed for GID %s : %w\", sessionID, ErrResponseNoApproval)}",
+      "8| reportErr(ctx, errc, err)",
+      "8| return",
+      "7| resps = append(resps, resp)",
+      "6| select",
+      "7| case <-ctx.Done():",
+      "8| return",
+      "7| case out <- &Responses{SessionId: sessionID, Response: resps}:",
+      "6| select",
+      "7| case <-ctx.Done():",
+      "7| case dkgOut <- dkg:",
+      "1| return"] ∧
+    Gen.VssFacts.getAndProcessResponses = [
+      "0| func getAndProcessResponses(ctx context.Context, logger log.Logger, dkgc chan *DistKeyGenerator, respsc chan []interface{}, sessionID string) (out chan *DistKeyGenerator, errc chan error)",
+      "1| out = make(chan *DistKeyGenerator)",
+      "1| errc = make(chan error)",
+      "1| go func() {…}()",
+      "2| func()",
+      "3| defer close(out)",
+      "3| defer close(errc)",
+      "3| var dkg *DistKeyGenerator",
+      "3| var ok bool",
+      "3| select",
+      "4| case <-ctx.Done():",
+      "4| case dkg, ok = <-dkgc:",
+      "5| if !ok",
+      "6| return",
+      "3| if dkg == nil",
+      "4| return",
+      "3| select",
+      "4| case <-ctx.Done():",
+      "4| case resps, ok := <-respsc:",
+      "5| if ok",
+      "6| for _, r := range resps",
+      "7| resp, ok := r.(*Response)",
+      "7| if !ok",
+      "8| err := &DKGError{err: errors.Errorf(\"getAndProcessResponses failed for GID %s : %w\", sessionID, ErrCasting)}",
+      "8| reportErr(ctx, errc, err)",
+      "8| return",
+      "7| if _, err := dkg.ProcessResponse(resp); err != nil",
+      "8| err := &DKGError{err: errors.Errorf(\"ProcessResponse failed for GID %s : %w\", sessionID, err)}",
+      "8| reportErr(ctx, errc, err)",
+      "8| return",
+      "6| select",
+      "7| case <-ctx.Done():",
+      "7| case out <- dkg:",
+      "1| return"] ∧
+    Gen.VssFacts.distKeyShare = [
+      "0| func DistKeyShare() (*DistKeyShare, error)",
+      "1| if !d.Certified()",
+      "2| return nil, errors.New(\"dkg: distributed key not certified\")",
+      "1| sh := d.suite.Scalar().Zero()",
+      "1| var pub *share.PubPoly",
+      "1| var err error",
+      "1| d.qualIter(func(i uint32, v *vss.Verifier) bool {…})",
+      "2| func(i uint32, v *vss.Verifier) bool",
+      "3| deal := v.Deal()",
+      "3| s := deal.SecShare.V",
+      "3| sh = sh.Add(sh, s)",
+      "3| poly := share.NewPubPoly(d.suite, d.suite.Point().Base(), deal.Commitments)",
+      "3| if pub == nil",
+      "4| pub = poly",
+      "4| return true",
+      "3| pub, err = pub.Add(poly)",
+      "3| return err == nil",
+      "1| if err != nil",
+      "2| return nil, err",
+      "1| _, commits := pub.Info()",
+      "1| return &DistKeyShare{ Commits: commits, Share: &share.PriShare{ I: int(d.index), V: sh, }, PrivatePoly: d.dealer.PrivatePoly().Coefficients(), }, nil"] :=
+  ⟨rfl, rfl, rfl, rfl, rfl, rfl⟩
+
 
 /-- **4. `schedule_independent`.**  Whatever the schedule did to member `i`, if it finishes its
 output is the same function of the dealers' polynomials alone: the public polynomial is the
